@@ -321,6 +321,23 @@ void op_prbat(toks *t)
         }
         prealloc_sweep(s, fmt, txt[fmt], &first_ok[fmt], (mode & 8) != 0);
     }
+    {   /* cJSON_bool is an int: every non-zero format value means "formatted" */
+        static const int fmts[] = { 2, 4, 256, -1, INT_MIN };
+        size_t fi, len1 = strlen(txt[1]);
+        for (fi = 0; fi < sizeof fmts / sizeof fmts[0]; fi++) {
+            char *r;
+            garena g;
+            char *buf;
+            cJSON_bool ok;
+            LIB_BEGIN("cJSON_PrintBuffered"); r = cJSON_PrintBuffered(s, (int)(fi * 7), fmts[fi]); LIB_END();
+            if (!r || strcmp(r, txt[1]) != 0) cjv_violation("print/buffered-differs", "PrintBuffered(fmt=%d) %s", fmts[fi], r ? "differs from Print" : "returned NULL");
+            if (r) lib_free(r);
+            buf = (char *)ga_make(&g, NULL, len1 + 8, GP_END, 0);
+            LIB_BEGIN("cJSON_PrintPreallocated"); ok = cJSON_PrintPreallocated(s, buf, (int)(len1 + 8), fmts[fi]); LIB_END();
+            if (!ok || memcmp(buf, txt[1], len1 + 1) != 0) cjv_violation("prealloc/differs", "PrintPreallocated(fmt=%d) %s", fmts[fi], ok ? "differs from Print" : "failed with room to spare");
+            ga_release(&g);
+        }
+    }
     {   /* refusals of the caller-buffer variant */
         char tmp[8];
         cJSON_bool ok;
